@@ -700,12 +700,27 @@ func validateBatchWriteItemInput(input *dynamodb.BatchWriteItemInput) error {
 	return nil
 }
 
+func batchTableNames(requestItems map[string][]*dynamodb.WriteRequest) []string {
+	names := make([]string, 0, len(requestItems))
+	for name := range requestItems {
+		names = append(names, name)
+	}
+
+	sort.Strings(names)
+
+	return names
+}
+
 func (fd *Client) validateBatchWriteRequests(input *dynamodb.BatchWriteItemInput) error {
 	if fd.forceFailureErr != nil {
 		return nil
 	}
 
-	for tableName, reqs := range input.RequestItems {
+	// the tables are checked in the order of their names: which of two defective requests is reported
+	// does not depend on the iteration order of the request map
+	for _, tableName := range batchTableNames(input.RequestItems) {
+		reqs := input.RequestItems[tableName]
+
 		table, err := fd.getTable(tableName)
 		if err != nil {
 			return err
